@@ -24,9 +24,16 @@ T1 == Atoms
       \cup {MArr(<<ty, v>>, -1) : ty \in TypeStrs, v \in TakeN(Atoms, 6)}          \* dynamic wrappers [type JSON, value]
 T2 == T1 \cup {MArr(<<x, y>>, -1) : x \in TakeN(T1 \ Atoms, 25), y \in TakeN(T1, 6)}
          \cup {MMap(<<MP(MStr(<<"a">>), x), MP(MStr(<<"b">>), y)>>, -1) : x \in TakeN(T1 \ Atoms, 25), y \in TakeN(Atoms, 4)}
+\* members under a placeholder element type: every sequence of up to 3 typed wrappers / untyped members (nil, unknown), as arrays and as maps
+\* (members of different types next to and around untyped ones)
+MBinS(str) == MBin(<<"\"">> \o str \o <<"\"">>)
+MWraps == {MArr(<<MBinS(<<"s", "t", "r", "i", "n", "g">>), MStr(<<"a">>)>>, -1), MArr(<<MBinS(<<"n", "u", "m", "b", "e", "r">>), MInt(1)>>, -1),
+           MArr(<<MBinS(<<"b", "o", "o", "l">>), MBool(TRUE)>>, -1), MNil, MUnk}
+MKeys == <<MStr(<<"a">>), MStr(<<"b">>), MStr(<<"c">>)>>
+TDynMembers == {MArr(s, -1) : s \in SeqsUpTo(MWraps, 3)} \cup {MMap([i \in 1..Len(s) |-> MP(MKeys[i], s[i])], -1) : s \in SeqsUpTo(MWraps, 3)}
 StructTargets == <<TNum, TStr, TBool, TDyn, TList(TNum), TList(TDyn), TSet(TStr), TMap(TNum), TMap(TDyn), TTup(<<TNum, TStr>>), TTup(<<TDyn>>),
                    TObj([a |-> TNum, b |-> TStr]), TObj([a |-> TDyn]), TList(TList(TNum)), TSet(TDyn)>>
-StructLines == {[k |-> "mp", tok |-> t, targets |-> StructTargets, mustfail |-> [i \in 1..Len(StructTargets) |-> FALSE]] : t \in (IF Thorough THEN T2 ELSE T1 \cup TakeN(T2 \ T1, 250))}
+StructLines == {[k |-> "mp", tok |-> t, targets |-> StructTargets, mustfail |-> [i \in 1..Len(StructTargets) |-> FALSE]] : t \in (IF Thorough THEN T2 ELSE T1 \cup TakeN(T2 \ T1, 250)) \cup TDynMembers}
 \* (C) JSON documents x unrelated targets, and type descriptions for json.UnmarshalType
 JLeaf == {JNull, JBool(TRUE), JNum(Qn(4)), JNum([lm |-> "u64maxp"]), JStr(<<>>), JStr(<<"a">>)}
 JD1 == JLeaf \cup {JArr(s) : s \in SeqsUpTo(TakeN(JLeaf, 4), 2)}
@@ -37,8 +44,12 @@ JD1 == JLeaf \cup {JArr(s) : s \in SeqsUpTo(TakeN(JLeaf, 4), 2)}
 \* duplicate property names whose values are structures (objects, arrays) of equal and of different shapes
 JDup == {JObj(<<Pair(<<"a">>, v), Pair(<<"a">>, w)>>) : v \in {JObj(<<>>), JArr(<<>>), JObj(<<Pair(<<"b">>, JNum(Qn(4)))>>), JArr(<<JNum(Qn(4))>>)}, w \in {JObj(<<>>), JArr(<<>>), JObj(<<Pair(<<"b">>, JStr(<<"x">>))>>), JArr(<<JBool(TRUE)>>)}}
         \cup {JArr(<<JObj(<<Pair(<<"a">>, JObj(<<>>)), Pair(<<"b">>, JNull), Pair(<<"a">>, JObj(<<>>))>>)>>)}
+JW(t, v) == JObj(<<Pair(KW("value"), v), Pair(KW("type"), JStr(KW(t)))>>)
+JWraps == {JW("string", JStr(<<"a">>)), JW("number", JNum(Qn(4))), JW("bool", JBool(TRUE)), JNull, JW("string", JNull)}
+JKeys == <<<<"a">>, <<"b">>, <<"c">>>>
+JDynMembers == {JArr(s) : s \in SeqsUpTo(JWraps, 3)} \cup {JObj([i \in 1..Len(s) |-> Pair(JKeys[i], s[i])]) : s \in SeqsUpTo(JWraps, 3)}
 JD2 == JDup \cup JD1 \cup {JArr(<<x, y>>) : x \in TakeN(JD1 \ JLeaf, 20), y \in TakeN(JD1, 5)} \cup {JObj(<<Pair(<<"a">>, x), Pair(<<"b">>, y)>>) : x \in TakeN(JD1 \ JLeaf, 20), y \in TakeN(JLeaf, 3)}
-JLines == {[k |-> "js", doc |-> d, targets |-> StructTargets] : d \in (IF Thorough THEN JD2 ELSE JD1 \cup JDup \cup TakeN(JD2 \ JD1, 150))}
+JLines == {[k |-> "js", doc |-> d, targets |-> StructTargets] : d \in (IF Thorough THEN JD2 ELSE JD1 \cup JDup \cup TakeN(JD2 \ JD1, 150)) \cup JDynMembers}
 \* type descriptions (valid and invalid)
 TLeaf == {JStr(KW("string")), JStr(KW("number")), JStr(KW("bool")), JStr(KW("dynamic")), JStr(<<"x">>), JNull, JNum(Qn(4)), JBool(TRUE), JObj(<<>>), JArr(<<>>)}
 TD1 == TLeaf \cup {JArr(<<JStr(KW(c)), t>>) : c \in {"list", "set", "map", "tuple", "object"}, t \in TLeaf}
